@@ -369,6 +369,49 @@ func init() {
 	})
 }
 
+// reading alerts while more alerts arrive than the channel holds: the checker
+// reports ErrAlertChannelFull and goes on working afterwards
+func init() {
+	registerND("checker-alert-channel-full-then-more", 1, 2, func(t *testing.T) *e1.Exec {
+		ctx, cancel := context.WithCancel(context.Background())
+		old := metrics.AlertChannelCap
+		metrics.AlertChannelCap = 1
+		st := metrics.NewStore()
+		ck := metrics.NewChecker(ctx, st, 3.0)
+		metrics.AlertChannelCap = old
+		ps := []peer.ID{clus.PID(1), clus.PID(2), clus.PID(3)}
+		for _, p := range ps {
+			st.Add(metric("ping", p, "0", -time.Second)) // expired: each one is due an alert
+		}
+		var read int
+		return &e1.Exec{
+			Threads: map[string]func(){
+				// three alerts into a channel of one, nobody reading yet
+				"T0": func() { ck.CheckPeers(ps); ck.CheckAll() },
+				// a reader, and another round of checks for a peer that fails later
+				"T1": func() {
+					for {
+						select {
+						case <-ck.Alerts():
+							read++
+							continue
+						default:
+						}
+						break
+					}
+					st.Add(metric("ping", clus.PID(4), "0", -time.Second))
+					ck.CheckPeers([]peer.ID{clus.PID(4)})
+					ck.CheckAll()
+				},
+			},
+			After: func(runErr error) (string, []e1.Finding) {
+				return "returned", nil
+			},
+			Teardown: func() { cancel() },
+		}
+	})
+}
+
 func metricsScenario(twoPeers bool) e1.Scenario {
 	return func(t *testing.T) *e1.Exec {
 		ctx, cancel := context.WithCancel(context.Background())
